@@ -104,6 +104,45 @@ public:
    std::string _moved;    // bytes moved by the calls since Load()
 };
 
+// packet-style (UDP-like) transport: whole packets, a script entry of 0 = would-block, >0 = move the packet
+class ScriptPacketIO : public PacketDataIO
+{
+public:
+   ScriptPacketIO(std::deque<std::string> * pk, uint32 mtu) : _pk(pk), _mtu(mtu), _pos(0) {}
+   void Load(const std::vector<uint32> & s) {_script = s; _pos = 0; _moved.clear();}
+   uint32 Next() {uint32 k = (_pos < _script.size()) ? _script[_pos] : 0; _pos++; return k;}
+   virtual uint32 GetMaximumPacketSize() const {return _mtu;}
+   virtual const IPAddressAndPort & GetPacketSendDestination() const {return _dest;}
+   virtual void SetPacketSendDestination(const IPAddressAndPort & iap) {_dest = iap;}
+   virtual io_status_t ReadFrom(void * buffer, uint32 size, IPAddressAndPort & retPacketSource)
+   {
+      if ((Next() == 0)||(_pk->empty())) return io_status_t((int32)0);
+      std::string p = _pk->front(); _pk->pop_front();
+      const uint32 n = std::min(size, (uint32)p.size());
+      memcpy(buffer, p.data(), n);
+      _moved.append(p.data(), n);
+      retPacketSource = IPAddressAndPort();
+      return io_status_t((int32)n);
+   }
+   virtual io_status_t WriteTo(const void * buffer, uint32 size, const IPAddressAndPort &)
+   {
+      if (Next() == 0) return io_status_t((int32)0);
+      _pk->push_back(std::string((const char *)buffer, size));
+      _moved.append((const char *)buffer, size);
+      return io_status_t((int32)size);
+   }
+   virtual void FlushOutput() {}
+   virtual void Shutdown() {}
+   virtual const ConstSocketRef & GetReadSelectSocket() const {return GetNullSocket();}
+   virtual const ConstSocketRef & GetWriteSelectSocket() const {return GetNullSocket();}
+   std::deque<std::string> * _pk;
+   uint32 _mtu;
+   IPAddressAndPort _dest;
+   std::vector<uint32> _script;
+   size_t _pos;
+   std::string _moved;
+};
+
 static std::string flat_hex(const MessageRef & m)
 {
    if (m() == NULL) return "null";
@@ -134,12 +173,17 @@ static void run_case(int k, const std::string & line)
    size_t bar = line.find('|');
    if (bar == std::string::npos) return;
    std::vector<std::string> head = split(line.substr(0, bar), ':');
-   const char kind = head[0].empty() ? '?' : head[0][0];
+   // a head starting with 'K' (KF, KT, KR) runs the same gateway class over a packet-style DataIO (oracle only)
+   const bool packet_mode = (head[0].size() > 1)&&(head[0][0] == 'K');
+   const char kind = head[0].empty() ? '?' : head[0][packet_mode ? 1 : 0];
    std::ostringstream o, orc;
    {
       Pipe pipe;
+      std::deque<std::string> packets;
       ScriptIO * wio = new ScriptIO(&pipe); DataIORef wref(wio);
       ScriptIO * rio = new ScriptIO(&pipe); DataIORef rref(rio);
+      ScriptPacketIO * wpio = new ScriptPacketIO(&packets, 1400); DataIORef wpref(wpio);
+      ScriptPacketIO * rpio = new ScriptPacketIO(&packets, 1400); DataIORef rpref(rpio);
       AbstractMessageIOGatewayRef sgw, rgw;
       uint32 minc = 0;
       if ((kind == 'F')||(kind == 'P'))
@@ -166,8 +210,9 @@ static void run_case(int k, const std::string & line)
       else if (kind == 'S') {sgw.SetRef(new SLIPFramedDataMessageIOGateway); rgw.SetRef(new SLIPFramedDataMessageIOGateway);}
       else {fprintf(stderr, "bad head [%s]\n", line.c_str()); exit(2);}
       // gateways whose wire format is not (yet) modelled in Coq run for the end-to-end oracle only
-      const bool oracle_only = (kind == 'P')||((kind == 'F')&&(atoi(head.size()>1 ? head[1].c_str() : "0") != 0));
-      sgw()->SetDataIO(wref); rgw()->SetDataIO(rref);
+      const bool oracle_only = (packet_mode)||(kind == 'P')||((kind == 'F')&&(atoi(head.size()>1 ? head[1].c_str() : "0") != 0));
+      if (packet_mode) {sgw()->SetDataIO(wpref); rgw()->SetDataIO(rpref);}
+                  else {sgw()->SetDataIO(wref);  rgw()->SetDataIO(rref);}
       QueueGatewayMessageReceiver recv;
 
       std::vector<std::string> sent, got;   // the oracle's own record (items, see items_of)
@@ -221,7 +266,7 @@ static void run_case(int k, const std::string & line)
          else if (c == "o")
          {
             const uint32 maxb = (uint32) strtoul(a[1].c_str(), NULL, 10);
-            wio->Load(nums(a.size()>2 ? a[2] : ""));
+            wio->Load(nums(a.size()>2 ? a[2] : "")); wpio->Load(nums(a.size()>2 ? a[2] : ""));
             const io_status_t r = sgw()->DoOutput(maxb);
             o << "o"; if (r.IsError()) o << "E"; else o << r.GetByteCount();
             o << ":" << hex(wio->_moved) << ":" << sgw()->GetOutgoingMessageQueue().GetNumItems() << "/";
@@ -245,7 +290,7 @@ static void run_case(int k, const std::string & line)
          else if (c == "i")
          {
             const uint32 maxb = (uint32) strtoul(a[1].c_str(), NULL, 10);
-            rio->Load(nums(a.size()>2 ? a[2] : ""));
+            rio->Load(nums(a.size()>2 ? a[2] : "")); rpio->Load(nums(a.size()>2 ? a[2] : ""));
             const io_status_t r = rgw()->DoInput(recv, maxb);
             o << "i"; if (r.IsError()) o << "E"; else o << r.GetByteCount();
             o << ":";
@@ -299,7 +344,7 @@ static void run_case(int k, const std::string & line)
          o << " ";
       }
       // ---- oracle: completeness once everything has been moved
-      if ((oracle_on)&&(!failed)&&(sgw()->HasBytesToOutput() == false)&&(pipe.q.empty()))
+      if ((oracle_on)&&(!failed)&&(sgw()->HasBytesToOutput() == false)&&(pipe.q.empty())&&(packets.empty()))
       {
          if (kind == 'R')
          {
